@@ -1,1 +1,326 @@
-import GeoModel
+/-
+  Property C11 (object level): the derived attributes Rect / Center / Empty / Valid of the
+  GeoJSON objects.  The series-level facts (`rect_tight`, `bboxSpec_tight`: the rectangle of a
+  series is the tight bounding box of its vertices) are in GeoProofs.Props.C18.
+
+  All statements are about GeoModel.Object as written.
+-/
+import GeoProofs.ObjLemmas
+import GeoProofs.Props.C18
+
+namespace Geo
+open Obj
+
+variable {k : CollKind} {cs : List Obj} {ex : Option Extra} {idx : Bool}
+
+/-! ### Rect -/
+
+/-- `unionBox` is the componentwise min/max — for ALL boxes (the well-formedness hypotheses of the
+    design sketch are not needed) -/
+theorem unionBox_spec (a b : Box) : unionBox a b =
+    ⟨⟨min a.min.x b.min.x, min a.min.y b.min.y⟩, ⟨max a.max.x b.max.x, max a.max.y b.max.y⟩⟩ :=
+  unionBox_eq a b
+
+/-- the componentwise order on boxes: `R` reaches at least as far as `r` on all four sides -/
+def Box.Covers (R r : Box) : Prop :=
+  R.min.x ≤ r.min.x ∧ r.max.x ≤ R.max.x ∧ R.min.y ≤ r.min.y ∧ r.max.y ≤ R.max.y
+
+/-- `R` is the tight box (componentwise min of the mins, max of the maxes) of the boxes `rs` -/
+def Box.TightOver (R : Box) (rs : List Box) : Prop :=
+  (∀ r ∈ rs, R.Covers r) ∧
+  (∃ r ∈ rs, R.min.x = r.min.x) ∧ (∃ r ∈ rs, R.min.y = r.min.y) ∧
+  (∃ r ∈ rs, R.max.x = r.max.x) ∧ (∃ r ∈ rs, R.max.y = r.max.y)
+
+/-- a tight box is unique -/
+theorem Box.TightOver.unique {R R' : Box} {rs : List Box} (h : R.TightOver rs) (h' : R'.TightOver rs) :
+    R = R' := by
+  obtain ⟨c, ⟨a1, ha1, e1⟩, ⟨a2, ha2, e2⟩, ⟨a3, ha3, e3⟩, ⟨a4, ha4, e4⟩⟩ := h
+  obtain ⟨c', ⟨b1, hb1, f1⟩, ⟨b2, hb2, f2⟩, ⟨b3, hb3, f3⟩, ⟨b4, hb4, f4⟩⟩ := h'
+  have x1 : R.min.x = R'.min.x := le_antisymm (f1 ▸ (c b1 hb1).1) (e1 ▸ (c' a1 ha1).1)
+  have x2 : R.min.y = R'.min.y := le_antisymm (f2 ▸ (c b2 hb2).2.2.1) (e2 ▸ (c' a2 ha2).2.2.1)
+  have x3 : R.max.x = R'.max.x := le_antisymm (e3 ▸ (c' a3 ha3).2.1) (f3 ▸ (c b3 hb3).2.1)
+  have x4 : R.max.y = R'.max.y := le_antisymm (e4 ▸ (c' a4 ha4).2.2.2) (f4 ▸ (c b4 hb4).2.2.2)
+  obtain ⟨⟨a, b⟩, ⟨c, d⟩⟩ := R
+  obtain ⟨⟨a', b'⟩, ⟨c', d'⟩⟩ := R'
+  simp_all
+
+theorem foldRects_tight (rs : List Box) (hne : rs ≠ []) : (foldRects rs).TightOver rs := by
+  cases rs with
+  | nil => exact absurd rfl hne
+  | cons a rs =>
+    refine ⟨?_, foldl_unionBox_attained rs a⟩
+    intro r hr
+    exact (Box.containsBox_iff _ _).1 (foldRects_covers (a :: rs) r hr)
+
+/-- The rectangle of a collection is the tight box over the rectangles of its non-empty children
+    (no well-formedness of the children's rectangles is needed); it is `zeroBox` when every child
+    is empty. -/
+theorem coll_rect_tight :
+    ((Obj.coll k cs ex idx).empty = false →
+      (Obj.coll k cs ex idx).rect.TightOver ((cs.filter (fun c => !c.empty)).map Obj.rect)) ∧
+    ((Obj.coll k cs ex idx).empty = true → (Obj.coll k cs ex idx).rect = zeroBox) := by
+  constructor
+  · intro hne
+    rw [coll_rect_eq]
+    apply foldRects_tight
+    rw [Obj.empty, allEmpty_false_iff] at hne
+    obtain ⟨c, hc, hce⟩ := hne
+    intro h0
+    have : c.rect ∈ (nonEmptyKids cs).map Obj.rect := List.mem_map.2 ⟨c, mem_nonEmptyKids.2 ⟨hc, hce⟩, rfl⟩
+    rw [h0] at this; cases this
+  · intro he
+    rw [coll_rect_eq]
+    rw [Obj.empty, allEmpty_iff] at he
+    have : nonEmptyKids cs = [] := by
+      rw [nonEmptyKids, List.filter_eq_nil_iff]
+      intro c hc; simp [he c hc]
+    rw [this]; rfl
+
+/-- spelled out on the children -/
+theorem coll_rect_tight_children (hne : (Obj.coll k cs ex idx).empty = false) :
+    (∀ c ∈ cs, c.empty = false → (Obj.coll k cs ex idx).rect.Covers c.rect) ∧
+    (∃ c ∈ cs, c.empty = false ∧ (Obj.coll k cs ex idx).rect.min.x = c.rect.min.x) ∧
+    (∃ c ∈ cs, c.empty = false ∧ (Obj.coll k cs ex idx).rect.min.y = c.rect.min.y) ∧
+    (∃ c ∈ cs, c.empty = false ∧ (Obj.coll k cs ex idx).rect.max.x = c.rect.max.x) ∧
+    (∃ c ∈ cs, c.empty = false ∧ (Obj.coll k cs ex idx).rect.max.y = c.rect.max.y) := by
+  obtain ⟨hc, h1, h2, h3, h4⟩ := (@coll_rect_tight k cs ex idx).1 hne
+  have conv : ∀ {P : Box → Prop}, (∃ r ∈ (cs.filter (fun c => !c.empty)).map Obj.rect, P r) →
+      ∃ c ∈ cs, c.empty = false ∧ P c.rect := by
+    intro P ⟨r, hr, hp⟩
+    obtain ⟨c, hcm, rfl⟩ := List.mem_map.1 hr
+    obtain ⟨h1, h2⟩ := List.mem_filter.1 hcm
+    exact ⟨c, h1, by simpa using h2, hp⟩
+  refine ⟨?_, conv h1, conv h2, conv h3, conv h4⟩
+  intro c hcm hce
+  exact hc c.rect (List.mem_map.2 ⟨c, List.mem_filter.2 ⟨hcm, by simp [hce]⟩, rfl⟩)
+
+/-! ### Center -/
+
+theorem center_spec (o : Obj) (r : Box) :
+    o.center = (match o with | .point p _ => p.p | .spoint p => p.p | _ => o.rect.center) ∧
+    Box.center r = ⟨(r.max.x + r.min.x) / 2, (r.max.y + r.min.y) / 2⟩ := by
+  refine ⟨?_, rfl⟩
+  cases o <;> rfl
+
+/-! ### Empty -/
+
+/-- a series that is empty: closed with fewer than 3 points, or fewer than 2 points -/
+def Series.Degenerate (s : Series) : Prop := (s.closed = true ∧ s.pts.size < 3) ∨ s.pts.size < 2
+
+theorem Series.empty_iff (s : Series) : s.empty = true ↔ s.Degenerate := by
+  simp [Series.empty, Series.Degenerate]
+
+/-- a geometry atom that occupies no space: Point / SimplePoint / Rect / Circle never; a LineString
+    with fewer than 2 points; a Polygon without exterior or whose exterior has fewer than 3 points -/
+def Obj.NoSpace : Obj → Prop
+  | .lineString l _ _ => l.Degenerate
+  | .polygon p _ _ =>
+    match p.ext with
+    | none => True
+    | some (.ser s) => s.Degenerate
+    | some (.bx _) => False
+  | _ => False
+
+theorem atom_empty_iff (a : Obj) (ha : a.isAtom = true) : a.empty = true ↔ a.NoSpace := by
+  cases a with
+  | lineString l poss ex => simp [Obj.empty, Obj.NoSpace, Series.empty_iff]
+  | polygon p rings ex =>
+    simp only [Obj.empty, Obj.NoSpace, Poly.empty]
+    cases p.ext with
+    | none => simp
+    | some e => cases e <;> simp [Ring.empty, Series.empty_iff]
+  | coll => simp [Obj.isAtom] at ha
+  | feature => simp [Obj.isAtom] at ha
+  | _ => simp [Obj.empty, Obj.NoSpace]
+
+/-- an object is empty iff every geometry atom in it (through collections and features) occupies
+    no space -/
+theorem empty_iff : ∀ o : Obj, o.empty = true ↔ ∀ g ∈ o.geoLeaves, g.NoSpace := by
+  intro o
+  induction o using Obj.ind' with
+  | hatom a ha => rw [atom_geoLeaves ha, atom_empty_iff a ha]; simp
+  | hfeat b ex ih => rw [feature_empty, Obj.geoLeaves]; exact ih
+  | hcoll k cs ex idx ih =>
+    rw [Obj.empty, allEmpty_iff, Obj.geoLeaves]
+    constructor
+    · intro h g hg
+      obtain ⟨c, hc, hgc⟩ := (mem_geoLeavesL cs g).1 hg
+      exact (ih c hc).1 (h c hc) g hgc
+    · intro h c hc
+      exact (ih c hc).2 (fun g hg => h g ((mem_geoLeavesL cs g).2 ⟨c, hc, hg⟩))
+
+/-- the usual reading: an OPEN line is empty iff it has fewer than 2 points, a polygon with a
+    CLOSED series exterior iff that has fewer than 3 points -/
+theorem empty_line_iff (l : Line) (poss : List Pos) (ex : Option Extra) (ho : l.closed = false) :
+    (Obj.lineString l poss ex).empty = true ↔ l.pts.size < 2 := by
+  simp [Obj.empty, Series.empty_iff, Series.Degenerate, ho]
+
+theorem empty_polygon_iff (s : Series) (holes : List Ring) (rings : List (List Pos)) (ex : Option Extra)
+    (hc : s.closed = true) :
+    (Obj.polygon ⟨some (.ser s), holes⟩ rings ex).empty = true ↔ s.pts.size < 3 := by
+  simp only [Obj.empty, Poly.empty, Ring.empty, Series.empty_iff, Series.Degenerate, hc, true_and]
+  omega
+
+/-! ### Valid -/
+
+/-- longitude in [-180, 180], latitude in [-90, 90] -/
+def Pt.InRange (p : Pt) : Prop := -180 ≤ p.x ∧ p.x ≤ 180 ∧ -90 ≤ p.y ∧ p.y ≤ 90
+
+theorem Pt.valid_iff (p : Pt) : p.valid = true ↔ p.InRange := by
+  simp [Pt.valid, Pt.InRange, and_assoc]
+
+theorem Series.valid_iff (s : Series) : s.valid = true ↔ ∀ p ∈ s.pts.toList, p.InRange := by
+  rw [Series.valid, Array.all_eq_true_iff_forall_mem]
+  simp [Pt.valid_iff]
+
+def Ring.InRange : Ring → Prop
+  | .ser s => ∀ p ∈ s.pts.toList, p.InRange
+  | .bx b => b.min.InRange ∧ b.max.InRange
+
+theorem Ring.valid_iff (r : Ring) : r.valid = true ↔ r.InRange := by
+  cases r <;> simp [Ring.valid, Ring.InRange, Series.valid_iff, Pt.valid_iff]
+
+theorem boxValid_iff (b : Box) : boxValid b = true ↔ b.min.InRange ∧ b.max.InRange := by
+  simp [boxValid, Pt.valid_iff]
+
+theorem valid_point_iff (pos : Pos) (ex : Option Extra) (hfin : pos.fin = true) :
+    ((Obj.point pos ex).valid = true ↔ pos.p.InRange) ∧
+    ((Obj.spoint pos).valid = true ↔ pos.p.InRange) := by
+  simp [Obj.valid, hfin, Pt.valid_iff]
+
+/-- a non-finite position is never valid -/
+theorem valid_point_fin (pos : Pos) (ex : Option Extra) (h : (Obj.point pos ex).valid = true) :
+    pos.fin = true := by
+  simp only [Obj.valid, Bool.and_eq_true] at h; exact h.1
+
+theorem valid_line_iff (l : Line) (poss : List Pos) (ex : Option Extra)
+    (hfin : ∀ q ∈ poss, q.fin = true) :
+    (Obj.lineString l poss ex).valid = true ↔ ∀ p ∈ l.pts.toList, p.InRange := by
+  have : poss.all (·.fin) = true := by simpa using hfin
+  simp [Obj.valid, this, Series.valid_iff]
+
+/-- when the positions are those of the series (the parser's invariant) -/
+theorem valid_line_iff_positions (l : Line) (poss : List Pos) (ex : Option Extra)
+    (hfin : ∀ q ∈ poss, q.fin = true) (hpos : poss.map (·.p) = l.pts.toList) :
+    (Obj.lineString l poss ex).valid = true ↔ ∀ q ∈ poss, q.p.InRange := by
+  rw [valid_line_iff l poss ex hfin, ← hpos]; simp
+
+theorem valid_polygon_iff (p : Poly) (rings : List (List Pos)) (ex : Option Extra)
+    (hfin : ∀ ring ∈ rings, ∀ q ∈ ring, q.fin = true) :
+    (Obj.polygon p rings ex).valid = true ↔
+      match p.ext with
+      | none => True
+      | some e => e.InRange ∧ ∀ h ∈ p.holes, h.InRange := by
+  have : rings.all (·.all (·.fin)) = true := by simpa using hfin
+  simp only [Obj.valid, this, Bool.true_and, Poly.valid]
+  cases p.ext with
+  | none => simp
+  | some e => simp [Ring.valid_iff]
+
+theorem valid_rect_iff (b : Box) (lo hi : Pos) (hlo : lo.fin = true) (hhi : hi.fin = true) :
+    (Obj.rectO b lo hi).valid = true ↔ b.min.InRange ∧ b.max.InRange := by
+  simp [Obj.valid, hlo, hhi, boxValid_iff]
+
+
+/-- the collection kinds whose `Valid` looks at the bounding box only -/
+def CollKind.bboxValid : CollKind → Bool
+  | .multiLineString => false
+  | .multiPolygon => false
+  | _ => true
+
+/-- MultiPoint / GeometryCollection / FeatureCollection: valid ⇔ the rectangle (by
+    `coll_rect_tight` the tight box of the non-empty children's rectangles, `zeroBox` if there is
+    none) is in range.  MultiLineString / MultiPolygon: valid ⇔ every child is valid. -/
+theorem coll_valid_bbox_iff :
+    (k.bboxValid = true →
+      ((Obj.coll k cs ex idx).valid = true ↔
+        (Obj.coll k cs ex idx).rect.min.InRange ∧ (Obj.coll k cs ex idx).rect.max.InRange)) ∧
+    (k.bboxValid = false →
+      ((Obj.coll k cs ex idx).valid = true ↔ ∀ c ∈ cs, c.valid = true)) := by
+  cases k <;> simp [CollKind.bboxValid, Obj.valid, boxValid_iff, allValid_eq]
+
+theorem zeroBox_inRange : zeroBox.min.InRange ∧ zeroBox.max.InRange := by
+  simp only [zeroBox, Pt.InRange]; norm_num
+
+/-- If the rectangle of every non-empty child is the tight box of that child's positions
+    (`pos` is any assignment of positions; for series this is `rect_tight` of C18), then the
+    bounding-box validity is: every position of every non-empty child is in range. -/
+theorem coll_valid_bbox_positions (pos : Obj → List Pt) (hk : k.bboxValid = true)
+    (htight : ∀ c ∈ cs, c.empty = false → Driver.bboxSpec (pos c) = some c.rect) :
+    (Obj.coll k cs ex idx).valid = true ↔ ∀ c ∈ cs, c.empty = false → ∀ p ∈ pos c, p.InRange := by
+  rw [(@coll_valid_bbox_iff k cs ex idx).1 hk]
+  cases he : (Obj.coll k cs ex idx).empty with
+  | true =>
+    rw [(@coll_rect_tight k cs ex idx).2 he]
+    rw [Obj.empty, allEmpty_iff] at he
+    constructor
+    · intro _ c hc hce; rw [he c hc] at hce; cases hce
+    · intro _; exact zeroBox_inRange
+  | false =>
+    obtain ⟨hcov, ⟨c1, hc1, he1, e1⟩, ⟨c2, hc2, he2, e2⟩, ⟨c3, hc3, he3, e3⟩, ⟨c4, hc4, he4, e4⟩⟩ :=
+      @coll_rect_tight_children k cs ex idx he
+    constructor
+    · rintro ⟨⟨m1, m2, m3, m4⟩, ⟨n1, n2, n3, n4⟩⟩ c hc hce p hp
+      obtain ⟨hall, _⟩ := bboxSpec_tight (pos c) c.rect (htight c hc hce)
+      obtain ⟨q1, q2, q3, q4⟩ := hall p hp
+      obtain ⟨v1, v2, v3, v4⟩ := hcov c hc hce
+      refine ⟨?_, ?_, ?_, ?_⟩ <;> linarith
+    · intro h
+      obtain ⟨_, ⟨p1, hp1, f1⟩, _, _, _⟩ := bboxSpec_tight (pos c1) c1.rect (htight c1 hc1 he1)
+      obtain ⟨_, _, _, ⟨p2, hp2, f2⟩, _⟩ := bboxSpec_tight (pos c2) c2.rect (htight c2 hc2 he2)
+      obtain ⟨_, _, ⟨p3, hp3, f3⟩, _, _⟩ := bboxSpec_tight (pos c3) c3.rect (htight c3 hc3 he3)
+      obtain ⟨_, _, _, _, ⟨p4, hp4, f4⟩⟩ := bboxSpec_tight (pos c4) c4.rect (htight c4 hc4 he4)
+      obtain ⟨a1, a2, _, _⟩ := h c1 hc1 he1 p1 hp1
+      obtain ⟨_, _, b3, b4⟩ := h c2 hc2 he2 p2 hp2
+      obtain ⟨c1', c2', _, _⟩ := h c3 hc3 he3 p3 hp3
+      obtain ⟨_, _, d3, d4⟩ := h c4 hc4 he4 p4 hp4
+      refine ⟨⟨?_, ?_, ?_, ?_⟩, ⟨?_, ?_, ?_, ?_⟩⟩ <;> linarith
+
+/-! ### non-vacuity -/
+
+section examples
+private def q1 : Obj := .spoint ⟨⟨1, 1⟩, true, "1", "1"⟩
+private def q2 : Obj := .point ⟨⟨200, 3⟩, true, "200", "3"⟩ none
+private def el : Obj := .lineString ⟨#[], false, false, false, ⟨⟨0, 0⟩, ⟨0, 0⟩⟩, none⟩ [] none
+private def mp2 : Obj := .coll .multiPoint [q1, el, q2] none false
+
+example : mp2.empty = false := by decide
+example : mp2.rect = ⟨⟨1, 1⟩, ⟨200, 3⟩⟩ := by decide
+example : mp2.valid = false := by decide
+example : (Obj.coll .multiPoint [q1, el] none false).valid = true := by decide
+example : (Obj.coll .geometryCollection [el, el] none false).rect = zeroBox := by decide
+/-- the hypothesis of `coll_valid_bbox_positions` holds for points with `pos = [the point]` -/
+example : ∀ c ∈ [q1, q2], c.empty = false →
+    Driver.bboxSpec ((fun o => match o with | .point p _ => [p.p] | .spoint p => [p.p] | _ => []) c)
+      = some c.rect := by
+  intro c hc _
+  simp only [List.mem_cons, List.not_mem_nil, or_false] at hc
+  rcases hc with rfl | rfl <;> rfl
+end examples
+
+end Geo
+
+#print axioms Geo.unionBox_spec
+#print axioms Geo.Box.TightOver.unique
+#print axioms Geo.foldRects_tight
+#print axioms Geo.coll_rect_tight
+#print axioms Geo.coll_rect_tight_children
+#print axioms Geo.center_spec
+#print axioms Geo.Series.empty_iff
+#print axioms Geo.atom_empty_iff
+#print axioms Geo.empty_iff
+#print axioms Geo.empty_line_iff
+#print axioms Geo.empty_polygon_iff
+#print axioms Geo.Pt.valid_iff
+#print axioms Geo.Series.valid_iff
+#print axioms Geo.Ring.valid_iff
+#print axioms Geo.boxValid_iff
+#print axioms Geo.valid_point_iff
+#print axioms Geo.valid_point_fin
+#print axioms Geo.valid_line_iff
+#print axioms Geo.valid_line_iff_positions
+#print axioms Geo.valid_polygon_iff
+#print axioms Geo.valid_rect_iff
+#print axioms Geo.coll_valid_bbox_iff
+#print axioms Geo.zeroBox_inRange
+#print axioms Geo.coll_valid_bbox_positions
